@@ -156,8 +156,8 @@ const char* stName(SimThread* t) {
     }
     dump.push_back(d);
   }
+  fprintf(stderr, "detsched: %s steps=%llu cap=%llu\n", kind == EndKind::Hang ? "HANG" : "LIVELOCK", (unsigned long long)S.st.steps, (unsigned long long)S.cfg.maxSteps);
   if (g_fatal) g_fatal(kind, dump);
-  fprintf(stderr, "detsched: %s\n", kind == EndKind::Hang ? "HANG" : "LIVELOCK");
   for (auto& d : dump) fprintf(stderr, "  thread %d [%s] %s\n", d.id, d.role.c_str(), d.state.c_str());
   _exit(3);
 }
